@@ -57,6 +57,7 @@ type SaveSpec struct {
 	Change Change `json:"change"`
 	Mode   string `json:"mode"`  // kill | efbig
 	Limit  int64  `json:"limit"` // RLIMIT_FSIZE; < 0: none
+	Ready  bool   `json:"ready"` // after loading the store print "ready" and wait for a line on stdin (a tracer attaches meanwhile)
 }
 
 type SaveResult struct {
@@ -103,6 +104,11 @@ func childSave() {
 	ctx, cancel := context.WithCancel(context.Background())
 	m.Start(ctx)
 	time.Sleep(5 * time.Millisecond) // the saver goroutine parks in its first select
+	if sp.Ready {
+		os.Stdout.WriteString("ready\n")
+		var one [1]byte
+		os.Stdin.Read(one[:])
+	}
 	if sp.Mode == "kill" {
 		if err := sigDefault(syscall.SIGXFSZ); err != nil {
 			out(SaveResult{Stage: "sigaction", Err: err.Error()})
